@@ -547,6 +547,12 @@ func (r *Run) Probe(id string, input any, reproduces func() string) {
 		return
 	}
 	var what string
+	// journal the probe: a probe whose defect has become process-killing (again) must end as a
+	// violation with a replay file, not as a dead shard
+	if r.OutDir != "" {
+		b, _ := json.Marshal(map[string]any{"property": r.ID, "part": "probe:" + id, "case": input, "why": "process died while executing this probe"})
+		_ = os.WriteFile(filepath.Join(r.OutDir, fmt.Sprintf("journal-%d.json", r.Shard)), b, 0o644)
+	}
 	func() {
 		defer func() {
 			if p := recover(); p != nil {
@@ -555,6 +561,9 @@ func (r *Run) Probe(id string, input any, reproduces func() string) {
 		}()
 		what = reproduces()
 	}()
+	if r.OutDir != "" {
+		_ = os.Remove(filepath.Join(r.OutDir, fmt.Sprintf("journal-%d.json", r.Shard)))
+	}
 	r.mu.Lock()
 	r.labels["probe-runs"]++
 	r.mu.Unlock()
